@@ -299,6 +299,7 @@ func Adversarial(shard, nshard int, maxTuples int, out io.Writer) (AdvStats, err
 
 	enc := json.NewEncoder(w)
 	idx := 0
+	hangs := 0
 
 	for _, rc := range advReceivers() {
 		probe := rc.mk()
@@ -384,6 +385,13 @@ func Adversarial(shard, nshard int, maxTuples int, out io.Writer) (AdvStats, err
 				st.Bad++
 
 				_ = enc.Encode(AdvOutcome{Type: rc.name, Method: meth.Name, Args: advArgs(args), Outcome: outc})
+
+				if outc == "HANG" {
+					hangs++
+					if hangs >= 4 {
+						return st, nil // every hang leaves a goroutine spinning: the verdict is in
+					}
+				}
 			}
 		}
 	}
